@@ -24,6 +24,8 @@ import verifkit as vk
 import gen
 import ser
 from checks import common
+
+repr = common.safe_repr          # deep chains: the library's recursive __repr__ must not crash the report
 from checks.common import Cases
 
 LEVEL = "proof"
@@ -345,7 +347,7 @@ def run(rep: vk.Report):
     for trial in range(10 if quick else 120):
         r = random.Random(rng.random())
         nq = r.randint(2, 5)
-        xq = _VVq(r.choice(["x", "q"]), nq, lb=-3.0, ub=3.0)
+        xq = _VVq(r.choice(["x", "q"]), nq, lb=-1.0, ub=3.0)          # an ASYMMETRIC box: a flipped sign changes the optimal value
         wq = np.array([1.0 + 0.5 * k_ * (-1 if k_ % 2 else 1) for k_ in range(nq)])
         c0 = r.choice([9.0, 4.0, 12.5])
         fam = trial % 6
@@ -381,6 +383,20 @@ def run(rep: vk.Report):
                     sols[nm_] = (sq.status.value, None if sq.objective_value is None else round(sq.objective_value, 5))
                 except Exception as ex:
                     sols[nm_] = ("raised", repr(ex)[:100])
+            # the LINEAR families also as objectives of a linear program (whatever extraction path each writing takes)
+            if fam in (1, 2, 5):
+                for sense_ in ("maximize", "minimize"):
+                    for nm_, ee in (("vectorised", vect), ("loop", loop)):
+                        try:
+                            Pl_ = _Pq()
+                            getattr(Pl_, sense_)(ee)
+                            sl_ = Pl_.solve()
+                            sols[nm_ + ":lp:" + sense_] = (sl_.status.value, None if sl_.objective_value is None else round(sl_.objective_value, 7))
+                        except Exception as ex:
+                            sols[nm_ + ":lp:" + sense_] = ("raised", repr(ex)[:100])
+                    if sols["vectorised:lp:" + sense_] != sols["loop:lp:" + sense_]:
+                        sols["vectorised"] = ("lp " + sense_,) + tuple(sols["vectorised:lp:" + sense_])
+                        sols["loop"] = ("lp " + sense_,) + tuple(sols["loop:lp:" + sense_])
         if got["vectorised"] != got["loop"] or sols["vectorised"] != sols["loop"]:
             shape_diffs += 1
             rep.violation({"kind": "shape", "obligation": "derivatives and solve results of a formula written with one vector node equal those of the term-by-term writing",
